@@ -149,6 +149,9 @@ pub fn run(config: Config) -> ::anyhow::Result<()> {
         let handle: JoinHandle<anyhow::Result<()>> = Builder::new()
             .name("signals".into())
             .spawn(move || {
+                #[cfg(feature = "verif")]
+                aquatic_common::verif_fault!("http.signals.start");
+
                 for signal in &mut signals {
                     match signal {
                         SIGUSR1 => {
